@@ -581,15 +581,10 @@ func (a *stakeActs) slash(t *rapid.T) {
 		// testutil/common.Tester.SlashValidator uses) -> staking.SlashWithInfractionReason -> hooks
 		ts.Keepers.SlashingKeeper.Slash(ts.Ctx, consAddr, frac, power, infraction)
 		if cls := slashFindingClass(w, val.OperatorAddress); cls != "" && ev.Excluded(cls) {
-			if cls == findingSlashVault {
-				// not taken back: the finding only leaves the provider VAULT unbalanced, and vaults are
-				// excluded at observation time (c06_balance_test.go); every other delegator of the
-				// slashed validator must still be re-balanced by this BeginBlock
-				a.c.Exclude(cls)
-			} else {
-				excludedClass = cls
-				return fmt.Errorf("slash taken back: known finding %s", cls)
-			}
+			// the slash is taken back: in the class of a known finding the (non-atomic) BeginBlock leaves
+			// partially written state behind that cascades into later steps of the history
+			excludedClass = cls
+			return fmt.Errorf("slash taken back: known finding %s", cls)
 		}
 		ts.Keepers.Dualstaking.BeginBlock(ts.Ctx, abci.RequestBeginBlock{})
 		return nil
